@@ -14,6 +14,7 @@ import gc
 import itertools
 from typing import Any
 
+from easynetwork.converter import AbstractPacketConverter
 from easynetwork.exceptions import StreamProtocolParseError
 from easynetwork.lowlevel.api_async.backend._asyncio.stream.listener import AcceptedSocketFactory, ListenerSocketAdapter
 from easynetwork.lowlevel.api_async.servers.stream import AsyncStreamServer
@@ -43,7 +44,8 @@ RULE = (
     "distinct_nontrivial = distinct (configuration class, handler log) pairs of executions with a non-default placement or a chunked stream"
 )
 ASSUMPTIONS = [
-    "line-based protocol (StringLineSerializer, ascii): a malformed frame is a line with a non-ascii byte; frame contents are irrelevant to the server beyond identity",
+    "line-based protocol (StringLineSerializer, ascii): a malformed frame is a line with a non-ascii byte; frame contents are irrelevant to the server beyond identity; "
+    "the request carried by frame 'c' has the value None (converter), so that a path confusing 'no request' with 'request None' loses it",
     "an arrival never shares a loop iteration with the expiry of a yielded timeout (C10's subject): untimed events are withheld while a loop timer is due within 10 ms or a zero-delay timeout is being delivered; timed delays keep >= 50 ms from deadlines",
     "after a connection reset (as opposed to EOF) requests not yet handed to the handler may be lost: only order/exactly-once of the delivered prefix is required; the handler ignores whatever send_packet raises after a reset (counted, not judged: C20's subject)",
     "a request whose bytes reached the transport but not yet the server's parser when a zero-delay timeout is yielded may legitimately time out (one checkpoint is needed to fetch it); a request already parsed-and-buffered by the server may not",
@@ -56,7 +58,21 @@ BOUNDS = {
 }
 
 FRAME_BYTES = {"a": b"a\n", "b": b"bb\n", "c": b"c\n", "X": b"\xff\n"}
-FRAME_VALUE = {"a": "a", "b": "bb", "c": "c"}
+FRAME_VALUE: dict = {"a": "a", "b": "bb", "c": None}  # the request carried by frame "c" has the VALUE None (converter below)
+
+
+class NoneForC(AbstractPacketConverter[Any, str]):
+    """Requests: the line 'c' becomes the packet None (a receive path testing the packet instead of catching StopIteration would
+    drop it when it is served from the buffer); responses are strings and pass through."""
+
+    __slots__ = ()
+
+    def create_from_dto_packet(self, packet: str) -> Any:
+        return None if packet == "c" else packet
+
+    def convert_to_dto_packet(self, obj: Any) -> str:
+        return str(obj)
+
 DELAYS = (0.21, 0.63, 1.63)
 END_DELAYS = (0.27, 1.27)
 TAU = 1.0
@@ -207,7 +223,7 @@ def run_one(ctx: Ctx, cfg: dict) -> dict:
     csock = world.stream_socket()
     csock.tag = "client"
     serializer = StringLineSerializer()
-    proto: Any = StreamProtocol(serializer) if cfg["proto"] == "copy" else BufferedStreamProtocol(serializer)
+    proto: Any = StreamProtocol(serializer, NoneForC()) if cfg["proto"] == "copy" else BufferedStreamProtocol(serializer, NoneForC())
     out: dict = {"tie": 0}
 
     def put(chunk: bytes) -> None:
@@ -406,7 +422,7 @@ def reference(cfg: dict, obs: dict) -> tuple[list[tuple], bytes, dict]:
                 tx.extend(b"err\n")
             else:
                 exp.append(("req", FRAME_VALUE[f]))
-                tx.extend(b"ok:" + FRAME_VALUE[f].encode() + b"\n")
+                tx.extend(b"ok:" + str(FRAME_VALUE[f]).encode() + b"\n")
             if shape.aclose_at == st["n"]:
                 exp.append(("aclose",))
                 st["closing"] = True
